@@ -216,9 +216,6 @@ package query
 //@   property C14 C19
 //@   safety
 
-//@ func setLag
-//@   property C14 C19
-//@   safety
 
 //@ func substr
 //@   property C14 C19
